@@ -258,7 +258,7 @@ def cluster_cov(cl):
             for j in range(max(own, i - band), i):
                 k = (i * 7 + j * 3) % len(cov["off"])
                 Lf[i, j] = cov["off"][k] * 0.5
-    sig = np.array([cov["sig"][i % len(cov["sig"])] * 0.1 for i in range(m)])
+    sig = np.array([cov["sig"][i % len(cov["sig"])] * 0.1 for i in range(m)]) * cov.get("sigscale", 1)
     C = (Lf @ Lf.T) * np.outer(sig, sig)
     return C, band
 
